@@ -90,8 +90,10 @@ pub fn check_case(c: &Case, st: &mut Stats, want_cov: bool) {
     }
     let imp = match impl_tokens(c, &[]) {
         Ok(i) => i,
-        Err(_) => {
-            st.count("impl_panicked(C04's business)");
+        Err(m) => {
+            // no tokens at all: the implementation panicked where the algorithm defines a result
+            st.case(Some(hash_str(&format!("{c:?}"))));
+            st.violation(&format!("tokens:impl-panic:{}", crate::report::panic_signature(&m)), &format!("input={} start={} policy={}: the tokenizer panicked: {m}", show(&c.input), start_state_name(c.start), c.policy.describe()), json!({"case": c.to_json()}));
             return;
         },
     };
